@@ -350,3 +350,802 @@ Proof.
   eapply K_trans; [exact Kt|]. destruct Kt as (I1 & _).
   destruct c as [[x y]|]; apply set_term_cursor_K; assumption.
 Qed.
+
+(* ---------- simple field updates ---------- *)
+Lemma with_modes_K s m : Inv s -> K s (with_modes s m).
+Proof. intros. k_ext. Qed.
+Lemma with_cset_K s c : Inv s -> K s (with_cset s c).
+Proof. intros. k_ext. Qed.
+Lemma with_rotten_K s b : Inv s -> K s (with_rotten s b).
+Proof. intros. k_ext. Qed.
+Lemma with_inesc_K s b : Inv s -> K s (with_inesc s b).
+Proof. intros. k_ext. Qed.
+Lemma with_pstate_K s b : Inv s -> K s (with_pstate s b).
+Proof. intros. k_ext. Qed.
+Lemma with_escbuf_K s b : Inv s -> K s (with_escbuf s b).
+Proof. intros. k_ext. Qed.
+Lemma with_u8eat_K s b : Inv s -> K s (with_u8eat s b).
+Proof. intros. k_ext. Qed.
+Lemma with_u8buf_K s b : Inv s -> K s (with_u8buf s b).
+Proof. intros. k_ext. Qed.
+Lemma with_saved_cur_K s b : Inv s -> K s (with_saved_cur s b).
+Proof. intros. k_ext. Qed.
+Lemma leave_escape_K s : Inv s -> K s (leave_escape s).
+Proof. intros. unfold leave_escape. k_ext. Qed.
+
+Lemma with_attrspec_K s a : Inv s -> oattr_ok a -> K s (with_attrspec s a).
+Proof.
+  intros I A. k_split; try reflexivity; [|constructor]. destruct I. constructor; cbn; auto.
+Qed.
+
+Lemma with_events_K s e : Inv s -> wf_event e -> K s (with_events s (e :: events s)).
+Proof.
+  intros I A. k_split; try reflexivity; [|constructor]. destruct I. constructor; cbn; auto.
+Qed.
+
+Lemma respond_K s r : Inv s -> wf_event (Respond r) -> K s (respond s r).
+Proof. intros. unfold respond. apply with_events_K; assumption. Qed.
+
+Lemma save_cursor_K s b : Inv s -> K s (save_cursor s b).
+Proof.
+  intros I. unfold save_cursor. destruct b; [|k_ext].
+  k_split; try reflexivity; [|constructor]. destruct I. constructor; cbn; auto.
+Qed.
+
+Lemma restore_cursor_K s b : Inv s -> K s (restore_cursor s b).
+Proof.
+  intros I. unfold restore_cursor. destruct (saved_cur s) as [[x y]|] eqn:E; [|apply K_refl; assumption].
+  pose proof (set_term_cursor_K s x y I) as K1.
+  destruct b; [|exact K1].
+  destruct (saved_attrs (set_term_cursor s x y)) as [[a [[sg ac] cu]]|] eqn:E2; [|exact K1].
+  eapply K_trans; [exact K1|]. destruct K1 as (I1 & _).
+  pose proof (i_sattr _ I1) as A. rewrite E2 in A.
+  eapply K_trans; [apply with_attrspec_K; eassumption|].
+  apply with_cset_K. apply with_attrspec_K; assumption.
+Qed.
+
+(* ---------- tab stops ---------- *)
+Lemma tablen_bound w : 0 <= w -> w <= 8 * (if 0 <? w mod 8 then w / 8 + 1 else w / 8).
+Proof.
+  intros. pose proof (Z.div_mod w 8 ltac:(lia)). pose proof (Z.mod_pos_bound w 8 ltac:(lia)).
+  destruct (0 <? w mod 8) eqn:E; lia.
+Qed.
+
+Lemma init_tabstops_K s e : Inv s -> K s (init_tabstops s e).
+Proof.
+  intros I. unfold init_tabstops. cbv zeta. pose proof (i_w s I).
+  pose proof (tablen_bound (width s) ltac:(lia)) as B.
+  set (tl := if 0 <? width s mod 8 then width s / 8 + 1 else width s / 8) in *.
+  k_split; try (destruct e; reflexivity); [|destruct e; constructor].
+  destruct e; destruct I; constructor; cbn; auto.
+  - rewrite zlen_app. unfold repeatz. rewrite zlen_repeat. pose proof (zlen_nonneg (tabstops s)). lia.
+  - unfold repeatz. rewrite zlen_repeat. lia.
+Qed.
+
+Lemma tab_index s x : Inv s -> 0 <= x < width s -> 0 <= x / 8 < zlen (tabstops s).
+Proof.
+  intros I Hx. pose proof (i_tabs s I). split.
+  - apply Z.div_pos; lia.
+  - apply Z.div_lt_upper_bound; lia.
+Qed.
+
+Lemma set_tabstop_Keeps s x rm cl : Inv s -> 0 <= x < width s -> Keeps s (set_tabstop s x rm cl).
+Proof.
+  intros I Hx. unfold set_tabstop. destruct cl.
+  - cbn. k_split; try reflexivity; [|constructor]. destruct I. constructor; cbn; auto. rewrite zlen_map. assumption.
+  - cbv zeta. pose proof (tab_index s x I Hx) as Hi.
+    destruct (get_index_ok (tabstops s) (x / 8) Hi) as (t & E & _). rewrite E. cbn [bind].
+    match goal with |- context [set_index _ _ ?v] => set (nv := v) end.
+    destruct (set_index_ok (tabstops s) (x / 8) nv Hi) as (l & El & Ll & _). rewrite El. cbn [bind Keeps].
+    k_split; try reflexivity; [|constructor]. destruct I. constructor; cbn; auto. lia.
+Qed.
+
+Lemma is_tabstop_ok s x : Inv s -> 0 <= x < width s -> exists b, is_tabstop s x = Ok b.
+Proof.
+  intros I Hx. unfold is_tabstop. pose proof (tab_index s x I Hx) as Hi.
+  destruct (get_index_ok (tabstops s) (x / 8) Hi) as (t & E & _). rewrite E. cbn. eauto.
+Qed.
+
+Lemma tab_loop_ok fuel : forall s x, Inv s -> 0 <= x <= width s - 1 -> width s - 1 - x < Z.of_nat fuel ->
+  exists s' x', tab_loop fuel s x = Ok (s', x') /\ K s s'.
+Proof.
+  induction fuel; intros s x I Hx Hf.
+  - pose proof (i_w s I). cbn [tab_loop]. exfalso. lia.
+  - cbn [tab_loop]. destruct (x <? width s - 1) eqn:C.
+    + pose proof (set_char_Keeps s [32] (fst (cur s)) (snd (cur s)) I) as Ks.
+      destruct (set_char s [32] (fst (cur s)) (snd (cur s))) as [s1|]; [|contradiction]. cbn [bind].
+      destruct Ks as (I1 & W1 & H1 & S1).
+      destruct (is_tabstop_ok s1 (x + 1) I1) as (b & Eb); [lia|]. rewrite Eb. cbn [bind].
+      destruct b.
+      * eexists _, _. split; [reflexivity|]. k_split; auto.
+      * destruct (IHfuel s1 (x + 1) I1) as (s' & x' & E' & K'); [lia|lia|].
+        rewrite E'. eexists _, _. split; [reflexivity|]. eapply K_trans; [|exact K']. k_split; auto.
+    + eexists _, _. split; [reflexivity|]. apply K_refl. assumption.
+Qed.
+
+Lemma tab_Keeps s : Inv s -> Keeps s (tab s).
+Proof.
+  intros I. unfold tab. destruct (cur s) as [x y] eqn:E.
+  pose proof (i_cx s I) as Hx. rewrite E in Hx. cbn [fst] in Hx.
+  destruct (tab_loop_ok (S (Z.to_nat (width s))) s x I) as (s' & x' & E' & K'); [lia|lia|].
+  rewrite E'. cbn [bind fst snd Keeps]. eapply K_trans; [exact K'|].
+  destruct K' as (I' & _). eapply K_trans; [apply with_rotten_K; exact I'|].
+  apply set_term_cursor_K. apply with_rotten_K. assumption.
+Qed.
+
+(* ---------- SGR: the colour numbers always fit the colour depth, so AttrSpec() never raises ---------- *)
+Lemma colors_ok_iff c : colors_ok c = true <-> (c = 1 \/ c = 16 \/ c = 256 \/ c = 16777216).
+Proof. unfold colors_ok. lia. Qed.
+
+Lemma color_ok_some v c : color_ok (Some v) c = true <->
+  0 <= v /\ ((c = 16777216 /\ v < 16777216) \/ (c = 256 /\ v < 256) \/ (c = 16 /\ v < 16)).
+Proof. unfold color_ok. destruct (c =? 16777216) eqn:?, (c =? 256) eqn:?, (c =? 16) eqn:?; lia. Qed.
+
+Ltac cok :=
+  repeat match goal with
+         | H : colors_ok _ = true |- _ => apply colors_ok_iff in H
+         | H : color_ok (Some _) _ = true |- _ => apply color_ok_some in H
+         | H : color_ok None _ = true |- _ => clear H
+         | |- colors_ok _ = true => apply colors_ok_iff
+         | |- color_ok (Some _) _ = true => apply color_ok_some
+         | |- color_ok None _ = true => reflexivity
+         end.
+
+Definition G_ok (g : sgi_t) : Prop :=
+  colors_ok (g_colors g) = true /\ color_ok (g_fg g) (g_colors g) = true /\ color_ok (g_bg g) (g_colors g) = true.
+
+Lemma sgi_step1_ok a g : G_ok g -> G_ok (sgi_step1 a g).
+Proof.
+  destruct g as [fg bg colors bold ul blink so cs dc]. unfold G_ok, sgi_step1. cbn [g_colors g_fg g_bg].
+  intros (H1 & H2 & H3).
+  destruct fg as [fg|], bg as [bg|]; split_ifs; cbn [g_colors g_fg g_bg]; repeat split; cok; lia.
+Qed.
+
+Lemma sgi_setcolor_ok a c nc g :
+  G_ok g -> 0 <= c -> colors_ok nc = true -> g_colors g <= nc ->
+  ((nc = 16777216 /\ c < 16777216) \/ (nc = 256 /\ c < 256)) -> G_ok (sgi_setcolor a c nc g).
+Proof.
+  destruct g as [fg bg colors bold ul blink so cs dc]. unfold G_ok, sgi_setcolor. cbn [g_colors g_fg g_bg].
+  intros (H1 & H2 & H3) Hc Hn Hle Hr.
+  destruct fg as [fg|], bg as [bg|]; split_ifs; cbn [g_colors g_fg g_bg]; repeat split; cok; lia.
+Qed.
+
+Lemma rgb_color_range r g b : 0 <= r -> 0 <= g -> 0 <= b -> 0 <= rgb_color r g b < 16777216.
+Proof.
+  intros. unfold rgb_color. rewrite !Z.shiftl_mul_pow2 by lia.
+  change (2 ^ 16) with 65536. change (2 ^ 8) with 256. lia.
+Qed.
+
+Lemma sgi_loop_ok n : forall l g, (length l <= n)%nat -> Forall (fun v => 0 <= v) l -> G_ok g -> G_ok (sgi_loop l g).
+Proof.
+  induction n; intros l g Hl Hp Hg.
+  - destruct l; [assumption|cbn in Hl; lia].
+  - destruct l as [|a r]; [assumption|]. cbn [sgi_loop]. cbn [length] in Hl.
+    inversion Hp as [|? ? Ha Hr]; subst.
+    destruct ((a =? 38) || (a =? 48)) eqn:C.
+    + destruct r as [|b [|c r']]; try (cbv iota; apply IHn; auto; cbn [length] in *; lia).
+      inversion Hr as [|? ? Hb Hr1]; subst. inversion Hr1 as [|? ? Hc Hr2]; subst.
+      destruct (b =? 5) eqn:B.
+      * apply IHn; [cbn [length] in *; lia|assumption|].
+        pose proof Hg as (G1 & _). apply colors_ok_iff in G1.
+        apply sgi_setcolor_ok; auto; try lia; try (cok; lia).
+      * destruct r' as [|cg [|cb r'']]; try (cbv iota; apply IHn; auto; cbn [length] in *; lia).
+        inversion Hr2 as [|? ? Hcg Hr3]; subst. inversion Hr3 as [|? ? Hcb Hr4]; subst.
+        destruct (b =? 2) eqn:B2; [|apply IHn; auto; cbn [length] in *; lia].
+        apply IHn; [cbn [length] in *; lia|assumption|].
+        pose proof (rgb_color_range c cg cb Hc Hcg Hcb).
+        pose proof Hg as (G1 & _). apply colors_ok_iff in G1.
+        apply sgi_setcolor_ok; auto; try lia; try (cok; lia).
+    + apply IHn; [lia|assumption|]. apply sgi_step1_ok. assumption.
+Qed.
+
+Lemma mk_attrspec_ok fg bg colors b u k so :
+  colors_ok colors = true -> color_ok fg colors = true -> color_ok bg colors = true ->
+  exists a, mk_attrspec fg bg colors b u k so = Ok a /\ oattr_ok a.
+Proof.
+  intros H1 H2 H3. unfold mk_attrspec. rewrite H1, H2, H3. cbn [andb].
+  destruct (is_none fg && is_none bg && negb (b || u || k || so)); [exists None; split; [reflexivity|exact Logic.I]|].
+  eexists. split; [reflexivity|]. unfold oattr_ok, attr_ok. cbn [a_colors a_fg a_bg].
+  destruct fg, bg; cbn [is_none andb]; repeat split; auto.
+Qed.
+
+Lemma sgi_to_attrspec_ok s attrs fg bg b u k so pc :
+  Inv s -> Forall (fun v => 0 <= v) attrs ->
+  colors_ok pc = true -> color_ok fg pc = true -> color_ok bg pc = true ->
+  exists s' a, sgi_to_attrspec s attrs fg bg b u k so pc = Ok (s', a) /\ K s s' /\ oattr_ok a.
+Proof.
+  intros I Hp H1 H2 H3. unfold sgi_to_attrspec. cbv zeta.
+  set (g := sgi_loop attrs _).
+  assert (G_ok g) as (G1 & G2 & G3).
+  { apply (sgi_loop_ok (length attrs)); auto. repeat split; assumption. }
+  match goal with |- context [mk_attrspec ?f _ _ _ _ _ _] => set (fg' := f) end.
+  assert (color_ok fg' (g_colors g) = true) as G2'.
+  { subst fg'. destruct (g_fg g) as [f|]; [|reflexivity].
+    destruct (g_bold g && (g_colors g =? 16) && (f <? 8)) eqn:C; [|assumption]. cok. lia. }
+  destruct (mk_attrspec_ok fg' (g_bg g) (g_colors g) (g_bold g) (g_ul g) (g_blink g) (g_so g) G1 G2' G3) as (a & E & A).
+  rewrite E. cbn [bind]. eexists _, _. split; [reflexivity|]. split; [|assumption].
+  eapply K_trans; [apply with_cset_K; eassumption|]. apply with_modes_K. apply with_cset_K. assumption.
+Qed.
+
+Lemma reverse_attrspec_ok a u : oattr_ok a -> attr_ok (reverse_attrspec a u).
+Proof.
+  intros A. unfold reverse_attrspec.
+  assert (attr_ok (match a with Some a0 => a0 | None => mkAttr None None 1 false false false false end)) as A'.
+  { destruct a; [exact A|]. repeat split. }
+  set (a' := match a with Some a0 => a0 | None => _ end) in *.
+  destruct (a_so a' && u); [exact A'|]. destruct (negb (a_so a') && negb u); exact A'.
+Qed.
+
+Lemma unbright_ok a c : colors_ok (a_colors a) = true -> color_ok c (a_colors a) = true -> color_ok (unbright a c) (a_colors a) = true.
+Proof.
+  intros H1 H2. destruct c as [n|]; [|reflexivity]. unfold unbright.
+  destruct ((8 <=? n) && (a_colors a =? 16)) eqn:C; [|assumption]. cok. lia.
+Qed.
+
+Lemma csi_set_attr_Keeps s attrs :
+  Inv s -> 0 < zlen attrs -> Forall (fun v => 0 <= v) attrs -> Keeps s (csi_set_attr s attrs).
+Proof.
+  intros I Hl Hp. unfold csi_set_attr.
+  destruct (get_index_last_ok attrs Hl) as (lst & E & _). rewrite E. cbn [bind].
+  set (s1 := if lst =? 0 then with_attrspec s None else s).
+  assert (K s s1) as K1.
+  { subst s1. destruct (lst =? 0); [apply with_attrspec_K; [assumption|exact Logic.I]|apply K_refl; assumption]. }
+  pose proof K1 as (I1 & _).
+  assert (exists s' a, match attrspec s1 with
+                       | Some a => sgi_to_attrspec s1 attrs (unbright a (a_fg a)) (unbright a (a_bg a)) (a_bold a) (a_ul a) (a_blink a) (a_so a) (a_colors a)
+                       | None => sgi_to_attrspec s1 attrs None None false false false false 1
+                       end = Ok (s', a) /\ K s1 s' /\ oattr_ok a) as (s' & a & E2 & K2 & A).
+  { pose proof (i_attr s1 I1) as A1. destruct (attrspec s1) as [a|].
+    - destruct A1 as (A1 & A2 & A3). apply sgi_to_attrspec_ok; auto using unbright_ok.
+    - apply sgi_to_attrspec_ok; auto. }
+  rewrite E2. cbn [bind]. pose proof K2 as (I2 & _).
+  eapply Keeps_trans; [exact K1|]. eapply Keeps_trans; [exact K2|].
+  destruct (m_reverse_video (modes s')); cbn [Keeps]; apply with_attrspec_K; auto.
+  apply reverse_attrspec_ok. assumption.
+Qed.
+
+(* reverse video over the whole grid *)
+Lemma dims_ok_true s : Inv s -> dims_ok s = true.
+Proof.
+  intros I. unfold dims_ok. pose proof (i_rows s I) as R. pose proof (i_cols s I) as C.
+  apply andb_true_intro. split; [lia|]. apply forallb_forall. rewrite Forall_forall in C.
+  intros r Hr. specialize (C r Hr). lia.
+Qed.
+
+Lemma reverse_video_Keeps s u : Inv s -> Keeps s (reverse_video s u).
+Proof.
+  intros I. unfold reverse_video. rewrite dims_ok_true by assumption. cbn [Keeps].
+  apply with_term_K; [assumption|]. pose proof (Inv_dims s I) as [D1 D2]. split.
+  - rewrite zlen_map. assumption.
+  - rewrite Forall_forall in *. intros r Hr. apply in_map_iff in Hr. destruct Hr as (r0 & <- & Hr0).
+    rewrite zlen_map. auto.
+Qed.
+
+(* ---------- modes, scrolling region, erase commands ---------- *)
+Lemma set_mode_Keeps s mode flag q : Inv s -> Keeps s (set_mode s mode flag q).
+Proof.
+  intros I. unfold set_mode. cbv zeta.
+  destruct q.
+  - destruct (mode =? 1); [apply with_modes_K; assumption|].
+    destruct (mode =? 3); [apply clear_K; assumption|].
+    destruct (mode =? 5).
+    { apply Keeps_bind.
+      - destruct (Bool.eqb (m_reverse_video (modes s)) flag); [apply K_refl; assumption|apply reverse_video_Keeps; assumption].
+      - intros s1 (I1 & _). apply with_modes_K. assumption. }
+    destruct (mode =? 6).
+    { cbn [Keeps]. eapply K_trans; [apply with_modes_K; eassumption|]. apply set_term_cursor_K. apply with_modes_K. assumption. }
+    destruct (mode =? 7); [apply with_modes_K; assumption|].
+    destruct (mode =? 25).
+    { cbn [Keeps]. eapply K_trans; [apply with_modes_K; eassumption|]. apply set_term_cursor_here_K. apply with_modes_K. assumption. }
+    destruct (mode =? 2004); [apply with_modes_K; assumption|]. apply K_refl. assumption.
+  - destruct (mode =? 3); [apply with_modes_K; assumption|].
+    destruct (mode =? 4); [apply with_modes_K; assumption|].
+    destruct (mode =? 20); [apply with_modes_K; assumption|]. apply K_refl. assumption.
+Qed.
+
+Lemma csi_set_modes_Keeps ms : forall s q r, Inv s -> Keeps s (csi_set_modes s ms q r).
+Proof.
+  induction ms; intros s q r I; cbn [csi_set_modes].
+  - apply K_refl. assumption.
+  - apply Keeps_bind; [apply set_mode_Keeps; assumption|]. intros s1 (I1 & _). apply IHms. assumption.
+Qed.
+
+Lemma constrain_ign s x y :
+  snd (constrain s x y 1) = (if height s <=? y then height s - 1 else if y <? 0 then 0 else y).
+Proof.
+  unfold constrain, constrain_coords_gen. cbv zeta. cbn [snd].
+  replace (negb (negb (1 =? 0))) with false by reflexivity. rewrite andb_false_r. reflexivity.
+Qed.
+
+Lemma csi_set_scroll_K s top bottom : Inv s -> K s (csi_set_scroll s top bottom).
+Proof.
+  intros I. unfold csi_set_scroll. cbv zeta.
+  set (t := if top =? 0 then 1 else top). set (b := if bottom =? 0 then height s else bottom).
+  destruct ((t <? b) && (b <=? height s)) eqn:C; [|apply K_refl; assumption].
+  set (s1 := with_sr_start s (snd (constrain s 0 (t - 1) 1))).
+  set (s2 := with_sr_end s1 (snd (constrain s1 0 (b - 1) 1))).
+  assert (K s s2) as K2.
+  { k_split; try reflexivity; [|constructor].
+    subst s2. rewrite constrain_ign. subst s1. rewrite constrain_ign.
+    pose proof (i_h s I). destruct I. constructor; cbn; auto.
+    split_ifs; lia. }
+  eapply K_trans; [exact K2|]. apply set_term_cursor_K. apply K2.
+Qed.
+
+Lemma csi_clear_tabstop_Keeps s mode : Inv s -> Keeps s (csi_clear_tabstop s mode).
+Proof.
+  intros I. unfold csi_clear_tabstop. pose proof (i_cx s I).
+  destruct (mode =? 0); [apply set_tabstop_Keeps; assumption|].
+  destruct (mode =? 3); [apply set_tabstop_Keeps; assumption|]. apply K_refl. assumption.
+Qed.
+
+Lemma csi_status_report_K s mode : Inv s -> K s (csi_status_report s mode).
+Proof.
+  intros I. unfold csi_status_report. pose proof (i_cx s I). pose proof (i_cy s I).
+  destruct (mode =? 5); [apply respond_K; [assumption|right; left; reflexivity]|].
+  destruct (mode =? 6); [|apply K_refl; assumption].
+  apply respond_K; [assumption|]. right; right. exists (snd (cur s) + 1), (fst (cur s) + 1). repeat split; lia.
+Qed.
+
+Lemma csi_erase_line_Keeps s mode : Inv s -> Keeps s (csi_erase_line s mode).
+Proof.
+  intros I. unfold csi_erase_line. pose proof (i_cy s I) as Hy. destruct (cur s) as [x y]. cbn [snd] in Hy.
+  destruct (mode =? 0); [apply erase_Keeps; assumption|].
+  destruct (mode =? 1); [apply erase_Keeps; assumption|].
+  destruct (mode =? 2); [apply blank_line_Keeps; assumption|]. apply K_refl. assumption.
+Qed.
+
+Lemma csi_erase_display_Keeps s mode : Inv s -> Keeps s (csi_erase_display s mode).
+Proof.
+  intros I. unfold csi_erase_display. apply Keeps_bind.
+  - destruct (mode =? 0); [apply erase_Keeps; assumption|apply K_refl; assumption].
+  - intros s1 (I1 & _).
+    destruct (mode =? 1); [apply erase_Keeps; assumption|].
+    destruct (mode =? 2); [apply clear_K; assumption|]. apply K_refl. assumption.
+Qed.
+
+Lemma csi_set_keyboard_leds_K s mode : Inv s -> K s (csi_set_keyboard_leds s mode).
+Proof.
+  intros I. unfold csi_set_keyboard_leds.
+  destruct ((0 <=? mode) && (mode <=? 3)); [apply with_events_K; [assumption|exact Logic.I]|apply K_refl; assumption].
+Qed.
+
+(* ---------- line feed, printing ---------- *)
+Lemma linefeed_Keeps s rv : Inv s -> Keeps s (linefeed s rv).
+Proof.
+  intros I. unfold linefeed. destruct (cur s) as [x y].
+  destruct rv.
+  - destruct ((y <=? 0) && (0 <? sr_start s)); [apply set_term_cursor_K; assumption|].
+    destruct (y =? sr_start s); [|apply set_term_cursor_K; assumption].
+    apply Keeps_bind; [apply scroll_Keeps; assumption|]. intros s1 (I1 & _). apply set_term_cursor_K. assumption.
+  - destruct ((height s - 1 <=? y) && (sr_end s <? height s - 1)); [apply set_term_cursor_K; assumption|].
+    destruct (y =? sr_end s); [|apply set_term_cursor_K; assumption].
+    apply Keeps_bind; [apply scroll_Keeps; assumption|]. intros s1 (I1 & _). apply set_term_cursor_K. assumption.
+Qed.
+
+Lemma carriage_return_K s : Inv s -> K s (carriage_return s).
+Proof. intros. apply set_term_cursor_K. assumption. Qed.
+
+Lemma newline_Keeps s : Inv s -> Keeps s (newline s).
+Proof.
+  intros I. unfold newline. eapply Keeps_trans; [apply carriage_return_K; eassumption|].
+  apply linefeed_Keeps. apply carriage_return_K. assumption.
+Qed.
+
+Lemma move_cursor_K s x y a b c : Inv s -> K s (move_cursor s x y a b c).
+Proof. intros. unfold move_cursor. apply set_term_cursor_K. assumption. Qed.
+
+Lemma push_char_Keeps s ch x y : Inv s -> Keeps s (push_char s ch x y).
+Proof.
+  intros I. unfold push_char. destruct (apply_mapping (cset s) ch) as [c ch'].
+  pose proof (with_cset_K s c I) as K1. eapply Keeps_trans; [exact K1|]. destruct K1 as (I1 & _).
+  apply Keeps_bind.
+  - destruct (m_insert (modes (with_cset s c))).
+    + apply insert_chars_Keeps; [assumption|]. apply (i_cy _ I1).
+    + apply set_char_Keeps. assumption.
+  - intros s1 (I2 & _). apply set_term_cursor_K. assumption.
+Qed.
+
+Lemma push_cursor_Keeps s ch : Inv s -> Keeps s (push_cursor s ch).
+Proof.
+  intros I. unfold push_cursor. destruct (cur s) as [x y].
+  destruct (m_autowrap (modes s)).
+  - destruct ((width s <=? x + 1) && negb (rotten s)).
+    + eapply Keeps_trans; [apply with_rotten_K; eassumption|]. apply push_char_Keeps. apply with_rotten_K. assumption.
+    + cbv zeta.
+      destruct ((width s <=? x + 1) && rotten s).
+      * destruct (sr_end s <=? y).
+        -- pose proof (scroll_Keeps s false I) as Ks. destruct (scroll s false) as [s1|]; [|contradiction].
+           cbn [bind]. eapply Keeps_trans; [exact Ks|]. destruct Ks as (I1 & _).
+           eapply Keeps_trans; [apply set_term_cursor_K; eassumption|].
+           apply Keeps_bind; [apply push_char_Keeps; apply set_term_cursor_K; assumption|].
+           intros s2 (I2 & _). apply with_rotten_K. assumption.
+        -- cbn [bind]. eapply Keeps_trans; [apply set_term_cursor_K; eassumption|].
+           apply Keeps_bind; [apply push_char_Keeps; apply set_term_cursor_K; assumption|].
+           intros s2 (I2 & _). apply with_rotten_K. assumption.
+      * cbn [bind]. apply Keeps_bind; [apply push_char_Keeps; assumption|].
+        intros s2 (I2 & _). apply with_rotten_K. assumption.
+  - cbv zeta. eapply Keeps_trans; [apply with_rotten_K; eassumption|]. apply push_char_Keeps. apply with_rotten_K. assumption.
+Qed.
+
+(* ---------- reset ---------- *)
+Lemma reset_scroll_K s : Inv s -> K s (reset_scroll s).
+Proof.
+  intros I. unfold reset_scroll. k_split; try reflexivity; [|constructor].
+  destruct I. constructor; cbn; auto. lia.
+Qed.
+
+Lemma with_saved_attrs_none_K s : Inv s -> K s (with_saved_attrs s None).
+Proof.
+  intros I. k_split; try reflexivity; [|constructor]. destruct I. constructor; cbn; auto.
+Qed.
+
+Lemma K_Inv s s' : K s s' -> Inv s'.
+Proof. intros (I & _). exact I. Qed.
+
+Lemma K_step s a b : K s a -> (Inv a -> K a b) -> K s b.
+Proof. intros H1 H2. eapply K_trans; [exact H1|]. apply H2. eapply K_Inv. exact H1. Qed.
+
+Lemma reset_K s : Inv s -> K s (reset s).
+Proof.
+  intros I. unfold reset. cbv zeta.
+  eapply K_step; [|intros; apply clear_K; assumption].
+  eapply K_step; [|intros; apply with_modes_K; assumption].
+  eapply K_step; [|intros; apply init_tabstops_K; assumption].
+  eapply K_step; [|intros; apply reset_scroll_K; assumption].
+  eapply K_step; [|intros; apply with_rotten_K; assumption].
+  eapply K_step; [|intros; apply with_saved_attrs_none_K; assumption].
+  eapply K_step; [|intros; apply with_saved_cur_K; assumption].
+  eapply K_step; [|intros; apply with_cset_K; assumption].
+  eapply K_step; [|intros; apply with_attrspec_K; [assumption|exact Logic.I]].
+  eapply K_step; [|intros; apply with_pstate_K; assumption].
+  eapply K_step; [|intros; apply with_inesc_K; assumption].
+  apply with_escbuf_K. assumption.
+Qed.
+
+(* ---------- CSI dispatch ---------- *)
+Lemma csi_table_default c n d t : csi_table c = Some (n, d, t) -> 0 <= d.
+Proof.
+  unfold csi_table. intros H.
+  destruct c as [|p|p]; try discriminate.
+  repeat (destruct p as [p|p|]; try discriminate); inversion H; lia.
+Qed.
+
+Lemma digits_val_nonneg l : forall acc v, 0 <= acc -> digits_val l acc = Some v -> 0 <= v.
+Proof.
+  induction l; intros acc v Ha H; cbn [digits_val] in H.
+  - inversion H. lia.
+  - destruct ((48 <=? a) && (a <=? 57)) eqn:C; [|discriminate]. eapply IHl; [|exact H]. lia.
+Qed.
+
+Lemma parse_int_nonneg l v : parse_int l = Some v -> 0 <= v.
+Proof.
+  unfold parse_int. destruct l; [discriminate|]. destruct (4300 <? zlen (z :: l)); [discriminate|].
+  apply digits_val_nonneg. lia.
+Qed.
+
+Lemma split59_nonempty l : forall c, 0 < zlen (split59 l c).
+Proof.
+  induction l; intros c; cbn [split59].
+  - rewrite zlen_cons. pose proof (zlen_nonneg (@nil (list Z))). lia.
+  - destruct (a =? 59); [rewrite zlen_cons; pose proof (zlen_nonneg (split59 l [])); lia|apply IHl].
+Qed.
+
+Lemma csi_dispatch_Keeps s c args q :
+  Inv s -> 0 < zlen args -> Forall (fun v => 0 <= v) args -> Keeps s (csi_dispatch s c args q).
+Proof.
+  intros I Hl Hp. unfold csi_dispatch. cbv zeta. pose proof (i_cx s I). pose proof (i_cy s I).
+  destruct (cur s) as [cx cy] eqn:Ec. cbn [fst snd] in *.
+  destruct (c =? 64); [apply insert_chars_Keeps; [assumption|cbn [fst snd]; assumption]|].
+  destruct (c =? 65); [apply move_cursor_K; assumption|].
+  destruct (c =? 66); [apply move_cursor_K; assumption|].
+  destruct (c =? 67); [apply move_cursor_K; assumption|].
+  destruct (c =? 68); [apply move_cursor_K; assumption|].
+  destruct (c =? 69); [apply move_cursor_K; assumption|].
+  destruct (c =? 70); [apply move_cursor_K; assumption|].
+  destruct (c =? 71); [apply move_cursor_K; assumption|].
+  destruct (c =? 72); [apply move_cursor_K; assumption|].
+  destruct (c =? 74); [apply csi_erase_display_Keeps; assumption|].
+  destruct (c =? 75); [apply csi_erase_line_Keeps; assumption|].
+  destruct (c =? 76); [apply insert_lines_Keeps; assumption|].
+  destruct (c =? 77); [apply remove_lines_Keeps; assumption|].
+  destruct (c =? 80); [apply remove_chars_Keeps; cbn [fst snd]; assumption|].
+  destruct (c =? 88); [apply erase_Keeps; assumption|].
+  destruct (c =? 99).
+  { cbn [Keeps]. unfold csi_get_device_attributes. destruct q; [apply K_refl; assumption|].
+    apply respond_K; [assumption|left; reflexivity]. }
+  destruct (c =? 100); [apply move_cursor_K; assumption|].
+  destruct (c =? 103); [apply csi_clear_tabstop_Keeps; assumption|].
+  destruct (c =? 104); [apply csi_set_modes_Keeps; assumption|].
+  destruct (c =? 108); [apply csi_set_modes_Keeps; assumption|].
+  destruct (c =? 109); [apply csi_set_attr_Keeps; assumption|].
+  destruct (c =? 110); [apply csi_status_report_K; assumption|].
+  destruct (c =? 113); [apply csi_set_keyboard_leds_K; assumption|].
+  destruct (c =? 114); [apply csi_set_scroll_K; assumption|].
+  destruct (c =? 115); [apply save_cursor_K; assumption|].
+  destruct (c =? 117); [apply restore_cursor_K; assumption|].
+  apply K_refl. assumption.
+Qed.
+
+Lemma parse_csi_Keeps s c : Inv s -> csi_table c <> None -> Keeps s (parse_csi s c).
+Proof.
+  intros I Hc. unfold parse_csi. cbv zeta.
+  destruct (csi_table c) as [[[nargs dflt] tgt]|] eqn:E; [|contradiction].
+  pose proof (csi_table_default _ _ _ _ E) as Hd.
+  apply csi_dispatch_Keeps; [assumption| |].
+  - rewrite zlen_map, zlen_app, zlen_map.
+    match goal with |- context [split59 ?l ?c] => pose proof (split59_nonempty l c) as Hs; set (raw := split59 l c) in * end.
+    match goal with |- context [@zlen ?T (repeatz ?x ?n)] => set (rp := @zlen T (repeatz x n)) in * end.
+    assert (0 <= rp) by (subst rp; apply zlen_nonneg).
+    clearbody raw rp. lia.
+  - apply Forall_forall. intros v Hv. apply in_map_iff in Hv. destruct Hv as (a & <- & Ha).
+    destruct a as [v0|]; [|assumption]. destruct (v0 =? 0); [assumption|].
+    apply in_app_or in Ha. destruct Ha as [Ha|Ha].
+    + apply in_map_iff in Ha. destruct Ha as (l0 & E0 & _). eapply parse_int_nonneg. exact E0.
+    + unfold repeatz in Ha. apply repeat_spec in Ha. discriminate.
+Qed.
+
+(* ---------- the rest of the escape parser ---------- *)
+Lemma parse_osc_K s buf : Inv s -> K s (parse_osc s buf).
+Proof.
+  intros I. unfold parse_osc.
+  assert (K s (with_events s (Title (after59 buf) :: events s))) by (apply with_events_K; [assumption|exact Logic.I]).
+  destruct buf as [|b0 [|b1 r]]; try (apply K_refl; assumption).
+  - repeat match goal with |- context [match ?x with _ => _ end] => destruct x; try (apply K_refl; assumption); try assumption end.
+  - repeat match goal with |- context [match ?x with _ => _ end] => destruct x; try (apply K_refl; assumption); try assumption end.
+Qed.
+
+Lemma set_g01_K s ch md : Inv s -> K s (set_g01 s ch md).
+Proof.
+  intros I. unfold set_g01. destruct (negb (m_main_charset (modes s) =? charset_default_gen)); [apply K_refl; assumption|].
+  apply with_cset_K. assumption.
+Qed.
+
+Lemma parse_noncsi_Keeps s ch md : Inv s -> Keeps s (parse_noncsi s ch md).
+Proof.
+  intros I. unfold parse_noncsi. pose proof (i_cx s I).
+  destruct (list_eqb md [35] && is1 ch 56); [apply decaln_Keeps; assumption|].
+  destruct (list_eqb md [37]).
+  { destruct (is1 ch 64); [apply with_modes_K; assumption|].
+    destruct (in1 ch [71; 56]); [apply with_modes_K; assumption|apply K_refl; assumption]. }
+  destruct (list_eqb md [40] || list_eqb md [41]); [apply set_g01_K; assumption|].
+  destruct (is1 ch 77); [apply linefeed_Keeps; assumption|].
+  destruct (is1 ch 68); [apply linefeed_Keeps; assumption|].
+  destruct (is1 ch 99); [apply reset_K; assumption|].
+  destruct (is1 ch 69); [apply newline_Keeps; assumption|].
+  destruct (is1 ch 72); [apply set_tabstop_Keeps; assumption|].
+  destruct (is1 ch 90); [apply respond_K; [assumption|left; reflexivity]|].
+  destruct (is1 ch 55); [apply save_cursor_K; assumption|].
+  destruct (is1 ch 56); [apply restore_cursor_K; assumption|].
+  apply K_refl. assumption.
+Qed.
+
+Lemma Keeps_then_leave s r : Keeps s r -> Keeps s (bind r (fun s' => Ok (leave_escape s'))).
+Proof.
+  intros H. apply Keeps_bind; [assumption|]. intros s1 (I1 & _). apply leave_escape_K. assumption.
+Qed.
+
+Lemma parse_escape_Keeps s ch : Inv s -> Keeps s (parse_escape s ch).
+Proof.
+  intros I. unfold parse_escape. cbv zeta.
+  pose proof (leave_escape_K s I) as KL.
+  destruct (pstate s =? 1).
+  { destruct ch as [|c [|? ?]]; try exact KL.
+    destruct (csi_table c) eqn:E.
+    - apply Keeps_bind; [apply parse_csi_Keeps; [assumption|congruence]|].
+      intros s1 (I1 & _). cbn [Keeps]. eapply K_trans; [apply with_pstate_K; eassumption|].
+      apply leave_escape_K. apply with_pstate_K. assumption.
+    - match goal with |- context [if ?b then _ else _] => destruct b end; [apply with_escbuf_K; assumption|exact KL]. }
+  destruct ((pstate s =? 0) && is1 ch 93).
+  { cbn [Keeps]. eapply K_trans; [apply with_escbuf_K; eassumption|]. apply with_pstate_K. apply with_escbuf_K. assumption. }
+  destruct ((pstate s =? 2) && is1 ch 7).
+  { cbn [Keeps]. eapply K_trans; [apply parse_osc_K; eassumption|]. apply leave_escape_K. apply parse_osc_K. assumption. }
+  match goal with |- context [if ?b then Ok (leave_escape (parse_osc _ _)) else _] => destruct b end.
+  { cbn [Keeps]. eapply K_trans; [apply parse_osc_K; eassumption|]. apply leave_escape_K. apply parse_osc_K. assumption. }
+  match goal with |- context [if ?b then Ok (leave_escape s) else _] => destruct b end; [exact KL|].
+  match goal with |- context [if ?b then Ok (leave_escape s) else _] => destruct b end; [exact KL|].
+  destruct (pstate s =? 2); [apply with_escbuf_K; assumption|].
+  destruct ((pstate s =? 0) && is1 ch 91).
+  { cbn [Keeps]. eapply K_trans; [apply with_escbuf_K; eassumption|]. apply with_pstate_K. apply with_escbuf_K. assumption. }
+  destruct ((pstate s =? 0) && in1 ch [37; 35; 40; 41]).
+  { cbn [Keeps]. eapply K_trans; [apply with_escbuf_K; eassumption|]. apply with_pstate_K. apply with_escbuf_K. assumption. }
+  destruct (pstate s =? 3); [apply Keeps_then_leave; apply parse_noncsi_Keeps; assumption|].
+  destruct (in1 ch [99; 68; 69; 72; 77; 90; 55; 56; 62; 61]); [apply Keeps_then_leave; apply parse_noncsi_Keeps; assumption|].
+  exact KL.
+Qed.
+
+(* ---------- process_char, addbyte, addstr ---------- *)
+Lemma process_char_Keeps s ch : Inv s -> Keeps s (process_char s ch).
+Proof.
+  intros I. unfold process_char. cbv zeta. destruct (cur s) as [x y].
+  destruct (is1 ch 27 && negb (pstate s =? 2)); [apply with_inesc_K; assumption|].
+  destruct (negb (m_display_ctrl (modes s)) && is1 ch 13); [apply carriage_return_K; assumption|].
+  destruct (negb (m_display_ctrl (modes s)) && is1 ch 15); [apply with_cset_K; assumption|].
+  destruct (negb (m_display_ctrl (modes s)) && is1 ch 14); [apply with_cset_K; assumption|].
+  destruct (negb (m_display_ctrl (modes s)) && in1 ch [10; 11; 12]).
+  { apply Keeps_bind; [apply linefeed_Keeps; assumption|]. intros s1 (I1 & _).
+    destruct (m_lfnl (modes s1)); [apply carriage_return_K; assumption|apply K_refl; assumption]. }
+  destruct (negb (m_display_ctrl (modes s)) && is1 ch 9); [apply tab_Keeps; assumption|].
+  destruct (negb (m_display_ctrl (modes s)) && is1 ch 8).
+  { destruct (0 <? x); [apply set_term_cursor_K; assumption|apply K_refl; assumption]. }
+  destruct (negb (m_display_ctrl (modes s)) && is1 ch 7 && negb (pstate s =? 2)).
+  { apply with_events_K; [assumption|exact Logic.I]. }
+  destruct (negb (m_display_ctrl (modes s)) && in1 ch [24; 26]); [apply leave_escape_K; assumption|].
+  destruct (negb (m_display_ctrl (modes s)) && in1 ch [0; 127]); [apply K_refl; assumption|].
+  destruct (inesc s); [apply parse_escape_Keeps; assumption|].
+  destruct (negb (m_display_ctrl (modes s)) && is1 ch 155).
+  { cbn [Keeps]. eapply K_step; [|intros; apply with_pstate_K; assumption].
+    eapply K_step; [|intros; apply with_escbuf_K; assumption]. apply with_inesc_K. assumption. }
+  apply push_cursor_Keeps. assumption.
+Qed.
+
+Lemma addbyte_Keeps s b : Inv s -> Keeps s (addbyte s b).
+Proof.
+  intros I. unfold addbyte.
+  destruct ((m_main_charset (modes s) =? charset_utf8_gen) || (enc s =? 0)); [|apply process_char_Keeps; assumption].
+  destruct (192 <=? b).
+  { cbn [Keeps]. eapply K_step; [|intros; apply with_u8buf_K; assumption]. apply with_u8eat_K. assumption. }
+  destruct (u8eat s) as [n|].
+  - destruct ((128 <=? b) && (b <? 192)).
+    + destruct (1 <? n).
+      { cbn [Keeps]. eapply K_step; [|intros; apply with_u8buf_K; assumption]. apply with_u8eat_K. assumption. }
+      cbv zeta. pose proof (with_u8eat_K s None I) as K1.
+      destruct (utf8_one_char _); [|exact K1].
+      eapply Keeps_trans; [exact K1|]. apply process_char_Keeps. eapply K_Inv. exact K1.
+    + eapply Keeps_trans; [apply with_u8eat_K; eassumption|]. apply process_char_Keeps. apply with_u8eat_K. assumption.
+  - eapply Keeps_trans; [apply with_u8eat_K; eassumption|]. apply process_char_Keeps. apply with_u8eat_K. assumption.
+Qed.
+
+Lemma addbytes_Keeps l : forall s, Inv s -> Keeps s (addbytes s l).
+Proof.
+  induction l; intros s I; cbn [addbytes].
+  - apply K_refl. assumption.
+  - apply Keeps_bind; [apply addbyte_Keeps; assumption|]. intros s1 (I1 & _). apply IHl. assumption.
+Qed.
+
+Lemma addstr_Keeps s l : Inv s -> Keeps s (addstr s l).
+Proof.
+  intros I. unfold addstr. destruct ((width s <=? 0) || (height s <=? 0)); [apply K_refl; assumption|].
+  apply addbytes_Keeps. assumption.
+Qed.
+
+(* ---------- resize ---------- *)
+(* the part of the invariant that resize re-establishes before it repositions the cursor and extends the tab stops *)
+Record Core (s : st) : Prop := mkCore {
+  c_w : 1 <= width s;
+  c_h : 1 <= height s;
+  c_rows : zlen (term s) = height s;
+  c_cols : Forall (fun r : row => zlen r = width s) (term s);
+  c_reg : 0 <= sr_start s /\ sr_start s <= sr_end s /\ sr_end s < height s;
+  c_sup : 0 <= sup s;
+  c_attr : oattr_ok (attrspec s);
+  c_sattr : match saved_attrs s with Some (a, _) => oattr_ok a | None => True end;
+  c_ev : Forall wf_event (events s) }.
+
+Lemma resize_finish s x y :
+  Core s ->
+  Inv (init_tabstops (set_term_cursor s (fst (constrain s x y 0)) (snd (constrain s x y 0))) true).
+Proof.
+  intros C. pose proof (constrain_range s x y 0 (c_w s C) (c_h s C) (c_reg s C)) as Hc.
+  destruct (constrain s x y 0) as [x0 y0]. cbn [fst snd] in *.
+  unfold set_term_cursor.
+  pose proof (constrain_range s x0 y0 0 (c_w s C) (c_h s C) (c_reg s C)) as Hc2.
+  destruct (constrain s x0 y0 0) as [x1 y1]. cbn [fst snd] in *.
+  pose proof (tablen_bound (width s) ltac:(destruct C; lia)) as B.
+  match goal with |- context [if ?b then _ else _] => destruct b eqn:Cb end;
+    unfold init_tabstops; cbv zeta; destruct C; constructor; cbn in *; auto; try lia.
+  all: try (rewrite zlen_app; unfold repeatz; rewrite zlen_repeat;
+            match goal with |- context [zlen ?l] => pose proof (zlen_nonneg l) end; lia).
+Qed.
+
+Lemma resize_grow_facts n : forall s,
+  0 <= width s -> Forall (fun r : row => zlen r = width s) (term s) ->
+  let s' := resize_grow n s in
+  zlen (term s') = zlen (term s) + Z.of_nat n /\ Forall (fun r : row => zlen r = width s) (term s') /\
+  width s' = width s /\ height s' = height s /\ sup s' = sup s /\ attrspec s' = attrspec s /\
+  saved_attrs s' = saved_attrs s /\ events s' = events s.
+Proof.
+  induction n; intros s Hw Hc; cbn [resize_grow].
+  - cbv zeta. repeat split; auto. lia.
+  - destruct (rev (sb s)) as [|last_line rest].
+    + match goal with |- context [resize_grow n ?x] => set (s1 := x) end.
+      destruct (IHn s1) as (A1 & A2 & A3 & A4 & A5 & A6 & A7 & A8).
+      * exact Hw.
+      * subst s1. cbn. apply Forall_app. split; [assumption|]. constructor; [|constructor].
+        apply zlen_empty_line. assumption.
+      * cbv zeta. subst s1. cbn in *. rewrite zlen_app, zlen_cons, zlen_nil in A1. repeat split; auto. lia.
+    + cbv zeta.
+      match goal with |- context [resize_grow n ?x] => set (s1 := x) end.
+      destruct (IHn s1) as (A1 & A2 & A3 & A4 & A5 & A6 & A7 & A8).
+      * exact Hw.
+      * subst s1. cbn. apply Forall_insert; [assumption|].
+        destruct (0 <? width s - zlen last_line) eqn:Cp.
+        -- rewrite zlen_app. unfold repeatz. rewrite zlen_repeat. lia.
+        -- rewrite zlen_takez by assumption. lia.
+      * subst s1. cbn in *. rewrite zlen_insert in A1. repeat split; auto. lia.
+Qed.
+
+Lemma resize_shrink_facts n : forall s,
+  Z.of_nat n <= zlen (term s) -> Forall (fun r : row => zlen r = width s) (term s) ->
+  exists s', resize_shrink n s = Ok s' /\
+  zlen (term s') = zlen (term s) - Z.of_nat n /\ Forall (fun r : row => zlen r = width s) (term s') /\
+  width s' = width s /\ height s' = height s /\ sup s' = sup s /\ attrspec s' = attrspec s /\
+  saved_attrs s' = saved_attrs s /\ events s' = events s /\ sr_start s' = sr_start s /\ sr_end s' = sr_end s.
+Proof.
+  induction n; intros s Hn Hc; cbn [resize_shrink].
+  - eexists. split; [reflexivity|]. repeat split; auto. lia.
+  - destruct (pop_ok (term s) 0) as (x & l' & E & L & _ & _ & F); [lia|]. rewrite E. cbn [bind fst snd].
+    match goal with |- context [resize_shrink n ?x] => set (s1 := x) end.
+    destruct (IHn s1) as (s' & E' & A1 & A2 & A3 & A4 & A5 & A6 & A7 & A8 & A9 & A10).
+    + subst s1. cbn. lia.
+    + subst s1. cbn. apply F. assumption.
+    + exists s'. split; [exact E'|]. subst s1. cbn in *. repeat split; auto. lia.
+Qed.
+
+Lemma init_tabstops_wh s e :
+  (width (init_tabstops s e), height (init_tabstops s e)) = (width s, height s).
+Proof. unfold init_tabstops. cbv zeta. destruct e; reflexivity. Qed.
+
+Lemma set_term_cursor_wh s x y :
+  (width (set_term_cursor s x y), height (set_term_cursor s x y)) = (width s, height s).
+Proof.
+  unfold set_term_cursor. destruct (constrain s x y 0).
+  match goal with |- context [if ?b then _ else _] => destruct b end; reflexivity.
+Qed.
+
+Lemma resize_Safe s w h :
+  Inv s -> 1 <= w -> 1 <= h -> exists s', resize s w h = Ok s' /\ Inv s' /\ width s' = w /\ height s' = h.
+Proof.
+  intros I Hw Hh. unfold resize. destruct (cur s) as [x y].
+  set (y0 := if negb (w =? width s) && (0 <? height s) then height s - 1 else y).
+  pose proof (Inv_dims s I) as [D1 D2]. pose proof (i_w s I) as W1. pose proof (i_h s I) as H1.
+  (* the width loops *)
+  assert (exists t, (if width s <? w
+              then if zlen (term s) <? height s then Err IndexError
+                   else Ok (map (fun r : row => r ++ repeatz (empty_char s [32]) (w - width s)) (takez (height s) (term s)) ++ dropz (height s) (term s))
+              else if w <? width s
+                   then if zlen (term s) <? height s then Err IndexError
+                        else Ok (map (fun r : row => takez (Z.max 0 w) r) (takez (height s) (term s)) ++ dropz (height s) (term s))
+                   else Ok (term s)) = Ok t /\ zlen t = height s /\ Forall (fun r : row => zlen r = w) t) as (t & Et & T1 & T2).
+  { replace (zlen (term s) <? height s) with false by lia.
+    rewrite (takez_all' (term s)) by lia. rewrite (dropz_all' (term s)) by lia. rewrite !app_nil_r.
+    destruct (width s <? w) eqn:C1; [|destruct (w <? width s) eqn:C2].
+    - eexists. split; [reflexivity|]. split; [rewrite zlen_map; assumption|].
+      rewrite Forall_forall in *. intros r Hr. apply in_map_iff in Hr. destruct Hr as (r0 & <- & Hr0).
+      rewrite zlen_app. unfold repeatz. rewrite zlen_repeat. rewrite (D2 r0 Hr0). lia.
+    - eexists. split; [reflexivity|]. split; [rewrite zlen_map; assumption|].
+      rewrite Forall_forall in *. intros r Hr. apply in_map_iff in Hr. destruct Hr as (r0 & <- & Hr0).
+      rewrite zlen_takez by lia. rewrite (D2 r0 Hr0). lia.
+    - exists (term s). split; [reflexivity|]. split; [assumption|]. replace w with (width s) by lia. assumption. }
+  unfold row in *. rewrite Et. cbn [bind].
+  set (s1 := with_width (with_term s t) w).
+  (* the height loops *)
+  assert (exists s2, (if height s1 <? h then Ok (resize_grow (Z.to_nat (h - height s1)) s1)
+                      else if h <? height s1 then resize_shrink (Z.to_nat (height s1 - h)) s1 else Ok s1) = Ok s2 /\
+           zlen (term s2) = h /\ Forall (fun r : list cell => zlen r = w) (term s2) /\ width s2 = w /\
+           sup s2 = sup s /\ attrspec s2 = attrspec s /\ saved_attrs s2 = saved_attrs s /\ events s2 = events s)
+    as (s2 & E2 & B1 & B2 & B3 & B4 & B5 & B6 & B7).
+  { assert (height s1 = height s) as Hs1 by reflexivity.
+    assert (width s1 = w) as Ws1 by reflexivity. assert (term s1 = t) as Ts1 by reflexivity.
+    destruct (height s1 <? h) eqn:C1; [|destruct (h <? height s1) eqn:C2].
+    - eexists. split; [reflexivity|].
+      destruct (resize_grow_facts (Z.to_nat (h - height s1)) s1) as (A1 & A2 & A3 & A4 & A5 & A6 & A7 & A8);
+        [lia|rewrite Ws1, Ts1; exact T2|].
+      rewrite Ws1, Ts1 in *. repeat split; auto. una; lia.
+    - destruct (resize_shrink_facts (Z.to_nat (height s1 - h)) s1) as (s2 & E2 & A1 & A2 & A3 & A4 & A5 & A6 & A7 & A8 & _);
+        [rewrite Ts1; una; lia|rewrite Ws1, Ts1; exact T2|].
+      exists s2. split; [exact E2|]. rewrite Ws1, Ts1 in *. repeat split; auto. una; lia.
+    - exists s1. split; [reflexivity|]. rewrite Ts1, Ws1. repeat split; auto. una; lia. }
+  rewrite E2. cbn [bind].
+  set (s4 := reset_scroll (with_height s2 h)).
+  assert (Core s4) as C4.
+  { subst s4. unfold reset_scroll. destruct I. constructor; cbn; try rewrite B3; try rewrite B4; try rewrite B5;
+      try rewrite B6; try rewrite B7; auto; try lia. }
+  pose proof (resize_finish s4 x y0 C4) as IF.
+  destruct (constrain s4 x y0 0) as [x1 y1] eqn:Ec. cbn [fst snd] in IF.
+  eexists. split; [reflexivity|]. split; [exact IF|].
+  pose proof (set_term_cursor_wh s4 x1 y1) as Q2. injection Q2 as Rw Rh.
+  split.
+  - change (width (set_term_cursor s4 x1 y1) = w). rewrite Rw. reflexivity.
+  - change (height (set_term_cursor s4 x1 y1) = h). rewrite Rh. reflexivity.
+Qed.
